@@ -53,7 +53,7 @@ CHECKS = {
         "reader must yield exactly the records whose frames are complete - unmodified, in order, none skipped - and "
         "must not raise at a frame boundary.",
         "Fail-stop fault model; streams above 3 kB are cut on a 300-point grid plus frame boundaries +-1 instead of "
-        "every offset; bz2/lz4/zstd truncation not enumerated.",
+        "every offset; bz2/lz4/zstd truncation is checked with the weaker 'unmodified prefix' oracle.",
         "DESIGN.md 4/C04",
     ),
     "C08": (
